@@ -60,7 +60,7 @@ os.makedirs(out, exist_ok=True)
 shutil.copy(os.path.join(src, 'patch.diff'), out)
 shutil.copy(demo, out)
 # evidence written by the check run against the patched tree must not stay behind
-subprocess.run(['git', 'checkout', '--', 'evidence/%s.json' % pid], cwd=VERIF, stderr=subprocess.DEVNULL)
+subprocess.run(['git', 'checkout', '--', 'evidence/%s.json' % pid, 'lean/Generated'], cwd=VERIF, stderr=subprocess.DEVNULL)  # tables regenerated from the patched tree must not stay behind either
 json.dump(meta, open(os.path.join(out, 'meta.json'), 'w'), indent=1)
 print(json.dumps({k: meta[k] for k in ('seed_id', 'compiles_and_tests_pass', 'demo_discriminates', 'detected_by')}, indent=None))
 for x in meta['ran']:
